@@ -704,8 +704,19 @@ class DiskFile(VirtualFileContainer):
         # Write out the directory entry
         self.write_dir_entry(directory_entry, coco_file, allocated_granules[0], last_sector_bytes_used)
 
-        # Write the granule data to disk
-        self.write_to_granules(coco_file.data, allocated_granules, preamble, postamble)
+        # Write the file to disk: preamble, data and postamble form one stream of bytes that
+        # fills the allocated granules in order, whether or not they lie next to each other
+        stream = [0x00] * preamble.length
+        preamble.write(stream, 0)
+        stream.extend(coco_file.data)
+        if postamble:
+            stream.extend([0x00] * postamble.length)
+            postamble.write(stream, len(stream) - postamble.length)
+        for index, granule in enumerate(allocated_granules):
+            chunk_start = index * DiskConstants.HALF_TRACK_LEN
+            self.write_bytes_to_buffer(
+                self.seek_granule(granule), stream[chunk_start:chunk_start + DiskConstants.HALF_TRACK_LEN]
+            )
 
         # Write out the file allocation table data
         self.write_to_fat(allocated_granules, last_granule_sectors_used)
